@@ -62,7 +62,16 @@ func (o *Obligation) Query(models bool) string {
 	for _, ax := range fv.axioms {
 		sb.WriteString("(assert " + ax + ")\n")
 	}
-	for _, a := range fv.asserts[:o.NPre] {
+	var anc map[int]bool
+	if o.Block != nil && !NoSlicing {
+		anc = fv.ancestors(o.Block)
+	}
+	for i, a := range fv.asserts[:o.NPre] {
+		// cone of influence: facts emitted in blocks that cannot precede the obligation's
+		// block are irrelevant (dropping assumptions is always sound)
+		if anc != nil && i < len(fv.assertBlk) && fv.assertBlk[i] >= 0 && !anc[fv.assertBlk[i]] {
+			continue
+		}
 		sb.WriteString("(assert " + a + ")\n")
 	}
 	sb.WriteString("(assert " + o.Reach.S + ")\n")
@@ -111,6 +120,9 @@ var solvers = []solverSpec{
 		return []string{"cvc5", "--incremental", fmt.Sprintf("--tlimit-per=%d", t), f}
 	}},
 }
+
+// NoSlicing disables the cone-of-influence pruning of queries.
+var NoSlicing = false
 
 // KeepQueries keeps discharged query files too.
 var KeepQueries = false
